@@ -94,6 +94,21 @@ def install_condition(sink):
                 if mm:
                     got |= set(range(int(mm.group(1)), int(mm.group(2)) + 1))
                     continue
+                # other spellings of a byte interval (a refactored generator might use them)
+                t2 = term.strip("() ")
+                mm = re.fullmatch(r"inval (<=|<|>=|>) (\d+)", t2) or None
+                if mm:
+                    op, n = mm.group(1), int(mm.group(2))
+                    got |= {b for b in range(256) if (b <= n if op == "<=" else b < n if op == "<" else b >= n if op == ">=" else b > n)}
+                    continue
+                mm = re.fullmatch(r"(\d+) (<=|<) inval", t2)
+                if mm:
+                    n, op = int(mm.group(1)), mm.group(2)
+                    got |= {b for b in range(256) if (n <= b if op == "<=" else n < b)}
+                    continue
+                if t2 in ("1", "true"):
+                    got |= set(range(256))
+                    continue
                 ok = False
         got = {b for b in got if b < 256}
         want256 = {b for b in want if b < 256}
